@@ -4,7 +4,7 @@ from hypothesis import strategies as st
 from .. import gen, pkg
 from ..plain import INF, Instance, labeling_losses
 from ..runner import Result, Violation
-from ..solver_common import common_labels, prescribed_root_of, reference, solution_features, validate_output
+from ..solver_common import maybe_alt_families, common_labels, prescribed_root_of, reference, solution_features, validate_output
 
 ID = "C02"
 LEVEL = "exploration"
@@ -92,6 +92,7 @@ def run_job(job):
 
 
 def check(case):
+    case = maybe_alt_families(case)
     inst = Instance(case)
     labels = common_labels(inst)
     proot = prescribed_root_of(inst)
